@@ -18,7 +18,7 @@ SLICE_RULE = ("direction A: every state of the TLC builder machine is one case; 
               "and distinct by the hash of its full JSON line (input and result).")
 
 PLANS = {
-    "_trace_of_suite": {"slice": "TraceSlice"},
+    "_trace_of_suite": {"slice": "TraceSlice", "build": "TraceBuild"},
     "C01": dict(
         sany=["DltCodec.tla", "mc/MCCodec.tla", "trace/TraceSlice.tla"],
         steps=[
@@ -148,5 +148,45 @@ PLANS = {
                     "sequences, 0xFF} x all sizes: ZStr = the declarative rule (consumes size; longest valid-UTF-8 prefix of the bytes before the first NUL), the UTF-8 automaton "
                     "= the declarative well-formedness table, and the ids of a message obey the same rule. A: all replayed through dlt_zero_terminated_string and dlt_message. "
                     "B: random long strings, sizes up to 65535, multi-byte sequences cut by the size limit and by NULs.",
+    ),
+    "C15": dict(
+        sany=["DltBuild.tla", "trace/TraceBuild.tla"],
+        steps=[
+            mc("build", "MCBuild", "MCBuild_quick.cfg", "MCBuild_thorough.cfg", replay=("build", "build")),
+            rec("build", "message", "TraceBuild", 1500, 40000, 2, 8),
+        ],
+        rule="seeded random message configurations (every payload kind, optional fields, extended header present / absent, deliberately mismatched pairings) and arguments "
+             "(well-formed and kind/value mismatches); every event is non-trivial; distinct by the hash of its JSON line",
+        explanation="MC: the builder as a machine New -> AddStorage -> AsBytes -> Parse over 13 248 configurations (2^4 optional-field combinations x no / 8 extended-header message "
+                    "types x 93 payloads incl. every argument kind, pairs, all payload kinds): LengthsAgree, StorageOnlyPrepends, ParsesBack (whenever the built message is well-formed), "
+                    "WellFormedIff (which pairings of payload kind, extended header and message type are self-consistent), ArgLaws (length independent of byte order; validity). "
+                    "A: every configuration through Message::new, byte_len, as_bytes, add_storage_header(Some(ts)), as_bytes, dlt_message, compared field by field; 456 + 114 arguments "
+                    "through Argument::len / as_bytes (both orders) / valid. B: random configurations (up to 255 arguments, long strings, mismatched pairings, versions > 7) and arguments.",
+    ),
+    "C17": dict(
+        sany=["DltBuild.tla", "trace/TraceBuild.tla"],
+        steps=[
+            mc("numeric", "MCNumeric", "MCNumeric_quick.cfg", "MCNumeric_thorough.cfg", replay=("build", "ts", "ts")),
+            rec("build", "ts", "TraceBuild", 1500, 60000, 2, 8),
+        ],
+        rule="boundary inputs (0, unit +-1, 2^32*unit +-1, powers of two and ten +-1, remainders that overflow a 32-bit product) and seeded random u64; distinct by the hash of the JSON line",
+        explanation="The model is two lines (drop the last limb(s) of the base-1000 numeral of the input, obtained textually from its decimal string); its value is an independent statement "
+                    "for inputs nobody calls today. MC: numeral arithmetic = TLC integers where both exist; SameInstantMs / SameInstantUs (secs*10^6 + us = input in us, us < 10^6) for all "
+                    "numerals that fit TLC. A: 24 336 generated inputs replayed. B: boundaries (0, unit +-1, 2^32*unit +-1, powers of two / ten +-1, remainders that overflow a 32-bit "
+                    "product) and random u64 through from_ms and from_us; TLC checks seconds, microseconds and the < 10^6 bound whenever the seconds fit 32 bits.",
+    ),
+    "C18": dict(
+        sany=["DltBuild.tla", "trace/TraceBuild.tla"],
+        steps=[
+            mc("numeric", "MCNumeric", "MCNumeric_quick.cfg", "MCNumeric_thorough.cfg", replay=("build", "real", "real")),
+            rec("build", "real", "TraceBuild", 3000, 100000, 2, 8),
+        ],
+        rule="seeded random arguments biased to the fixed-point kinds: every integer width as carried value, quantizations incl. 0, tiny, NaN, +-inf, negative, random bit patterns, "
+             "offsets incl. 0, +-1, +-200, i32/i64 min/max, random; non-trivial = fixed-point data present; distinct by the hash of the JSON line",
+        explanation="TLA+ has no floating point: the double-precision product (value as f64 * quantization as f64, truncated) is computed by the driver and logged by class "
+                    "(num with its numeral / neg / nan / >= 2^64); the specification decides the case analysis (nothing unless fixed-point kind AND fixed-point data AND 8..64-bit "
+                    "integer value), the 64-bit sum on numerals, the domain 0..2^63 and the absence of panics. MC: CaseAnalysis over 576 shapes x 4 product classes x offset sign, "
+                    "Boundary (2^63-1, negative sums). A: 3 000 generated arguments with quantization 1.0 replayed with their expected value. B: all integer widths x quantizations "
+                    "{0, tiny, 0.01, 1, 1.5, 1e10, +-inf, NaN, random bits} x offsets {0, +-1, +-200, i32/i64 min/max, random}.",
     ),
 }
